@@ -24,6 +24,14 @@ var solvers = []solverDef{
 	{"cvc5-1.0", func(t int) []string {
 		return []string{"sh", "-c", "ulimit -v 3500000; exec cvc5 --lang=smt2 --tlimit=" + itoa(t*1000) + " --mbqi"}
 	}},
+	// the same z3 with other random seeds: quantifier instantiation order depends on the seed, and
+	// an obligation one seed misses within the time limit another often proves at once
+	{"z3-5.1.0/seed1", func(t int) []string {
+		return []string{"z3-new", "-in", "-smt2", "-T:" + itoa(t), "-memory:3000", "smt.random_seed=1", "sat.random_seed=1"}
+	}},
+	{"z3-5.1.0/seed2", func(t int) []string {
+		return []string{"z3-new", "-in", "-smt2", "-T:" + itoa(t), "-memory:3000", "smt.random_seed=2", "sat.random_seed=2"}
+	}},
 }
 
 func itoa(n int) string {
